@@ -87,28 +87,28 @@ Qed.
 (* ---------- the outcome of pass 1 ---------- *)
 Record P1Spec (o : oracle) (h w : nat) (u : mark) (old nw : grid cell) (M : grid mark)
        (dec : nat -> nat -> bool) (cmds : list cmd) (imgs : list (nat * nat * face * N)) : Prop := {
-  p1_dims : gdims M h w;
+  sp_dims : gdims M h w;
   (* a cell treated as unchanged is unchanged *)
-  p1_same : forall r c, r < h -> c < w -> dec r c = false -> gget old r c = gget nw r c;
+  sp_same : forall r c, r < h -> c < w -> dec r c = false -> gget old r c = gget nw r c;
   (* a cell treated as changed differs, or was damaged when pass 1 reached it (and then still is,
      unless something of the new surface covers it) *)
-  p1_dec : forall r c, r < h -> c < w -> dec r c = true ->
+  sp_dec : forall r c, r < h -> c < w -> dec r c = true ->
            gget old r c <> gget nw r c \/ gget M r c = Some MDamaged
            \/ exists r1 c1 y, gget nw r1 c1 = Some y /\ ext_covers o y r1 c1 r c = true;
-  p1_ign : forall r c, gget M r c = Some MIgnored ->
+  sp_ign : forall r c, gget M r c = Some MIgnored ->
            exists r1 c1 y, gget nw r1 c1 = Some y /\ ext_covers o y r1 c1 r c = true;
-  p1_new : forall r1 c1 y r c, gget nw r1 c1 = Some y -> ext_covers o y r1 c1 r c = true -> r < h -> c < w ->
+  sp_new : forall r1 c1 y r c, gget nw r1 c1 = Some y -> ext_covers o y r1 c1 r c = true -> r < h -> c < w ->
            gget M r c = Some MIgnored \/ (gget M r c = Some MDamaged /\ dec r1 c1 = true);
-  p1_old : forall r1 c1 y r c, gget old r1 c1 = Some y -> dec r1 c1 = true ->
+  sp_old : forall r1 c1 y r c, gget old r1 c1 = Some y -> dec r1 c1 = true ->
            ext_covers o y r1 c1 r c = true -> r < h -> c < w ->
            (forall r2 c2 z, gget nw r2 c2 = Some z -> ext_covers o z r2 c2 r c = false) ->
            gget M r c = Some MDamaged;
-  p1_forced : u = MDamaged -> forall r c, r < h -> c < w ->
+  sp_forced : u = MDamaged -> forall r c, r < h -> c < w ->
               gget M r c = Some MDamaged \/ gget M r c = Some MIgnored;
-  p1_cmds : Forall is_erase_at cmds
+  sp_cmds : Forall is_erase_at cmds
             /\ forall i r c, In (CImageErase i (Some (r, c))) cmds <->
                              (exists x, gget old r c = Some x /\ ckind x = KImg i /\ dec r c = true);
-  p1_imgs : forall r c f i, In (r, c, f, i) imgs <->
+  sp_imgs : forall r c f i, In (r, c, f, i) imgs <->
                             (exists x, gget nw r c = Some x /\ ckind x = KImg i /\ cface x = f /\ dec r c = true) }.
 
 (* ---------- rows ---------- *)
@@ -127,15 +127,15 @@ Lemma nth_error_skipn' : forall {A} n (l : list A) i, nth_error (skipn n l) i = 
 Proof. induction n; intros [|x l] i; simpl; auto. destruct i; reflexivity. Qed.
 
 
-Arguments p1_dims {o h w u old nw M dec cmds imgs}.
-Arguments p1_same {o h w u old nw M dec cmds imgs}.
-Arguments p1_dec {o h w u old nw M dec cmds imgs}.
-Arguments p1_ign {o h w u old nw M dec cmds imgs}.
-Arguments p1_new {o h w u old nw M dec cmds imgs}.
-Arguments p1_old {o h w u old nw M dec cmds imgs}.
-Arguments p1_forced {o h w u old nw M dec cmds imgs}.
-Arguments p1_cmds {o h w u old nw M dec cmds imgs}.
-Arguments p1_imgs {o h w u old nw M dec cmds imgs}.
+Arguments sp_dims {o h w u old nw M dec cmds imgs}.
+Arguments sp_same {o h w u old nw M dec cmds imgs}.
+Arguments sp_dec {o h w u old nw M dec cmds imgs}.
+Arguments sp_ign {o h w u old nw M dec cmds imgs}.
+Arguments sp_new {o h w u old nw M dec cmds imgs}.
+Arguments sp_old {o h w u old nw M dec cmds imgs}.
+Arguments sp_forced {o h w u old nw M dec cmds imgs}.
+Arguments sp_cmds {o h w u old nw M dec cmds imgs}.
+Arguments sp_imgs {o h w u old nw M dec cmds imgs}.
 
 Section Analysis.
   Variable o : oracle.
@@ -213,7 +213,7 @@ Section Analysis.
     gget nw r c = Some x -> ckind x = KChar ch -> cw o ch = 2 -> gget M r c <> Some MIgnored.
   Proof.
     intros r c x ch Hx Hk Hw2 Hm.
-    destruct (p1_ign HP r c Hm) as (r1 & c1 & y & Hy & He).
+    destruct (sp_ign HP r c Hm) as (r1 & c1 & y & Hy & He).
     destruct (ext_cover_cases r1 c1 y r c Hy He) as [H|H]; apply H.
     - eapply wide_not_covered; eauto. lia.
     - eapply wide_left_not_wide; eauto.
@@ -223,7 +223,7 @@ Section Analysis.
     gget M r c <> Some MDamaged -> gget M r c <> Some MIgnored -> u = MEmpty.
   Proof.
     intros r c Hr Hc H1 H2. destruct Hu as [Hu'|[Hu' _]]; auto.
-    destruct (p1_forced HP Hu' r c Hr Hc); contradiction.
+    destruct (sp_forced HP Hu' r c Hr Hc); contradiction.
   Qed.
 
   Lemma space_not_wide : forall x, ckind x = KChar space -> is_wide o x = false.
@@ -237,7 +237,7 @@ Section Analysis.
     destruct (cover_img o h w nw r c) as [[r0 c0]|] eqn:E; auto. exfalso.
     apply cover_img_some in E. destruct E as (Hr0 & Hc0 & f & i & Hi & Hin).
     apply img_at_some in Hi. destruct Hi as (x & Hx & Hk & Hf).
-    destruct (p1_new HP r0 c0 x r c Hx) as [H|[_ H]]; auto; try congruence.
+    destruct (sp_new HP r0 c0 x r c Hx) as [H|[_ H]]; auto; try congruence.
     rewrite (ext_covers_img o x i); auto.
   Qed.
 
@@ -249,12 +249,12 @@ Section Analysis.
     gget M r (S c') = Some MIgnored \/ skipcond m' oldc y = false.
   Proof.
     intros r c' y ch oldc m' Hr Hc Hy Hk Hw2 Ho Hm.
-    destruct (p1_new HP r c' y r (S c') Hy) as [H|[_ Hdec]]; auto.
+    destruct (sp_new HP r c' y r (S c') Hy) as [H|[_ Hdec]]; auto.
     { apply (ext_covers_char o y ch); auto. lia. }
     right. apply skipcond_false.
     assert (Hni : m' <> MIgnored).
     { intros ->. eapply wide_owner_not_ignored; eauto. }
-    destruct (p1_dec HP r c' Hr ltac:(lia) Hdec) as [Hne|[Hd|(r1 & c1 & y1 & Hy1 & He)]].
+    destruct (sp_dec HP r c' Hr ltac:(lia) Hdec) as [Hne|[Hd|(r1 & c1 & y1 & Hy1 & He)]].
     - right. split; auto. intros ->. congruence.
     - left. congruence.
     - exfalso. destruct (ext_cover_cases r1 c1 y1 r c' Hy1 He) as [H|H]; apply H.
@@ -317,7 +317,7 @@ Section Analysis.
       pose proof (good_cells _ _ _ _ GN r j' y Hy) as Hg. unfold cell_good in Hg. rewrite Hk in Hg.
       assert (Hfit : S j' < w) by lia.
       destruct (gget_in_bounds old h w r j' ltac:(apply Gold) Hr ltac:(lia)) as (oldc & Ho).
-      destruct (gget_in_bounds M h w r j' (p1_dims HP) Hr ltac:(lia)) as (m' & Hm).
+      destruct (gget_in_bounds M h w r j' (sp_dims HP) Hr ltac:(lia)) as (m' & Hm).
       destruct (behind_wide_cases r j' y ch oldc m' Hr Hfit Hy Hk Hw2 Ho Hm) as [H|Hs]; auto.
       exfalso.
       rewrite (gget_row nw r rn) in Hy by auto.
@@ -411,12 +411,12 @@ Section Analysis.
       intros g c Hc Hred Hsync.
       destruct (gget_in_bounds nw h w r c ltac:(apply GN) Hr Hc) as (new & Hn).
       destruct (gget_in_bounds old h w r c ltac:(apply Gold) Hr Hc) as (oldc & Ho).
-      destruct (gget_in_bounds M h w r c (p1_dims HP) Hr Hc) as (m & Hm).
+      destruct (gget_in_bounds M h w r c (sp_dims HP) Hr Hc) as (m & Hm).
       destruct (cover_img o h w nw r c) as [[r0 c0]|] eqn:Ecov.
       { (* under a kept image *)
         left. unfold redrawn in Hred. rewrite Ecov in Hred.
         apply cover_img_some in Ecov. destruct Ecov as (Hr0 & Hc0 & f & i & Hi & Hin).
-        pose proof (p1_same HP r0 c0 Hr0 Hc0 Hred) as Hsame.
+        pose proof (sp_same HP r0 c0 Hr0 Hc0 Hred) as Hsame.
         assert (Hi' : img_at old r0 c0 = Some (f, i)) by (unfold img_at in *; rewrite Hsame; auto).
         assert (Hue : u = MEmpty).
         { destruct Hu as [H|[_ Hblank]]; auto. exfalso.
@@ -433,7 +433,7 @@ Section Analysis.
         unfold is_wide in Ew. destruct (ckind y) as [chy| |] eqn:Eky; try discriminate.
         apply Nat.eqb_eq in Ew.
         destruct (gget_in_bounds old h w r c' ltac:(apply Gold) Hr ltac:(lia)) as (oldc' & Ho').
-        destruct (gget_in_bounds M h w r c' (p1_dims HP) Hr ltac:(lia)) as (m' & Hm').
+        destruct (gget_in_bounds M h w r c' (sp_dims HP) Hr ltac:(lia)) as (m' & Hm').
         destruct (skipcond m' oldc' y) eqn:Es.
         - (* the wide character is skipped: it is unchanged and shown *)
           left. apply skipcond_true in Es. destruct Es as [Hnd [Hi|Heq]].
@@ -461,11 +461,11 @@ Section Analysis.
       2:{ contradiction. }
       destruct (skipcond m oldc new) eqn:Es.
       - left. apply skipcond_true in Es. destruct Es as [Hnd [Hi|Heq]].
-        { exfalso. subst m. destruct (p1_ign HP r c Hm) as (r1 & c1 & y & Hy & He).
+        { exfalso. subst m. destruct (sp_ign HP r c Hm) as (r1 & c1 & y & Hy & He).
           destruct (ext_cover_cases r1 c1 y r c Hy He); congruence. }
         subst oldc.
         assert (Hnot_ign : gget M r c <> Some MIgnored).
-        { intros Hi. destruct (p1_ign HP r c Hi) as (r1 & c1 & y & Hy & He).
+        { intros Hi. destruct (sp_ign HP r c Hi) as (r1 & c1 & y & Hy & He).
           destruct (ext_cover_cases r1 c1 y r c Hy He); congruence. }
         assert (Hue : u = MEmpty) by (apply (u_empty_of_clean r c); auto; congruence).
         assert (Hnone : forall r2 c2 z, gget nw r2 c2 = Some z -> ext_covers o z r2 c2 r c = false).
@@ -481,9 +481,9 @@ Section Analysis.
           pose proof Hi as Hi2. apply img_at_some in Hi2. destruct Hi2 as (x & Hx & Hkx & Hfx).
           destruct (dec r0 c0) eqn:Ed.
           * assert (gget M r c = Some MDamaged).
-            { eapply (p1_old HP r0 c0 x); eauto. rewrite (ext_covers_img o x i); auto. }
+            { eapply (sp_old HP r0 c0 x); eauto. rewrite (ext_covers_img o x i); auto. }
             congruence.
-          * pose proof (p1_same HP r0 c0 Hr0 Hc0 Ed) as Hsame. rewrite Hsame in Hx.
+          * pose proof (sp_same HP r0 c0 Hr0 Hc0 Ed) as Hsame. rewrite Hsame in Hx.
             eapply covered_by_img; eauto.
         + destruct (left_wide o old r c) as [f|] eqn:Elo; auto. exfalso.
           unfold left_wide in Elo. destruct c as [|c']; [discriminate|].
@@ -493,9 +493,9 @@ Section Analysis.
           apply Nat.eqb_eq in Ew.
           destruct (dec r c') eqn:Ed.
           * assert (gget M r (S c') = Some MDamaged).
-            { eapply (p1_old HP r c' y); eauto; try lia. apply (ext_covers_char o y chy); auto. lia. }
+            { eapply (sp_old HP r c' y); eauto; try lia. apply (ext_covers_char o y chy); auto. lia. }
             congruence.
-          * pose proof (p1_same HP r c' Hr ltac:(lia) Ed) as Hsame. rewrite Hsame in Ey.
+          * pose proof (sp_same HP r c' Hr ltac:(lia) Ed) as Hsame. rewrite Hsame in Ey.
             unfold left_wide in Elw. rewrite Ey in Elw. unfold is_wide in Elw. rewrite Eky, Ew in Elw.
             discriminate.
       - right.
